@@ -100,6 +100,10 @@ def plan(S, prop, mode, tier, avoid):
             op.update({"d": d, "n": wpick(r, [(None, 0.5), (1, 1), (r.randrange(2, 40), 4)]),
                        "cseed": r.randrange(1 << 30), "api": pick(r, ["class", "func", "func_nomean"]),
                        "scale": float("%.3g" % (10 ** (r.uniform(-3, 3) if chance(r, 0.6) else r.uniform(-14, 6))))})
+            if chance(r, 0.3):
+                # parameters of very different units (a flux, a position, a shape): sigma ratios up to 1e9, i.e. a
+                # covariance that is ill conditioned by scaling alone (Cholesky does not mind)
+                op["axscale"] = [round(r.uniform(-4.5, 4.5), 2) for _ in range(d)]
             if prop == "C15":
                 op["pc"] = present.draw(r)
                 op["pm"] = present.draw(r)
@@ -568,6 +572,9 @@ def do_cholesky(run, op):
     g = np.random.Generator(np.random.PCG64(op["cseed"]))
     A = g.normal(size=(d, d + 2))
     cov = (A @ A.T + 0.05 * np.eye(d)) * op["scale"]
+    if op.get("axscale"):
+        D = 10.0 ** np.array((list(op["axscale"]) + [0.0] * d)[:d])
+        cov = cov * D[:, None] * D[None, :]
     cov = 0.5 * (cov + cov.T)
     mean = g.normal(size=d) * 10
     src = SimRNG(op["seed"], "legacy", op["edge"])
